@@ -98,6 +98,28 @@ theorem C15_zero_iff_idle_partial (cfg : Cfg) (tsn peerRwnd : BitVec 32) (hc : C
     · intro h; exact this.mp (by omega)
     · intro h; have := this.mpr h; omega
 
+/-- **A SACK is applied completely or not at all.** In every reachable state the in-flight queue is TSN-contiguous from
+the cumulative ack point up to `myNextTSN`; therefore a SACK that is not stale and passes the validation at the head of
+`processSelectiveAck` runs both of its loops (cumulative pops, gap marks) to the end: the two error returns that sit
+AFTER the first modification of the queue (`ErrInflightQueueTSNPop`, `ErrTSNRequestNotExist`) are unreachable. Every
+other SACK (association not established, stale, rejected by the validation) leaves the state untouched by definition
+of `sack`. So bytes are released for exactly the chunks a SACK names, never for a prefix of them. -/
+theorem C15_sack_atomic (cfg : Cfg) (tsn peerRwnd : BitVec 32) (hc : CfgOk cfg) (ops : List Op)
+    (cum : BitVec 32) (gaps : List (BitVec 16 × BitVec 16))
+    (hstale : sna32GT (run (init cfg tsn peerRwnd) ops).cumAck cum = false)
+    (hval : validate (run (init cfg tsn peerRwnd) ops) cum gaps = true) :
+    (ackPhase (run (init cfg tsn peerRwnd) ops) cum gaps).isSome = true ∧
+    Seq (run (init cfg tsn peerRwnd) ops) := by
+  have hs := run_seq _ ops (init_seq cfg tsn peerRwnd) (init_win cfg tsn peerRwnd hc)
+  obtain ⟨r, hr, _⟩ := ackPhase_total _ cum gaps hs hstale hval
+  exact ⟨by rw [hr]; rfl, hs⟩
+
+/-- non-vacuity: a SACK with a gap block inside the queue is validated and applied; one naming a TSN never sent is rejected -/
+example :
+    let s := run (init { mtu := 1200, maxPayload := 1172 } 4294967295 65536) [.openS 1 false 0 0 0, .write 1 53 3000, .gather freeOracle [0, 0, 0]]
+    (sna32GT s.cumAck 4294967295, validate s 4294967295 [(1, 2)], (sack s 4294967295 65536 [(1, 2)] []).2,
+     validate s 0 [(3, 3)], (sack s 0 65536 [(3, 3)] []).2) = (false, true, .ok, false, .rejected) := by decide
+
 /-- **Rollback.** A write that fails because the association is not established leaves the stream exactly as it was —
 buffered amount, stream sequence number, both message-identifier counters — and queues nothing. -/
 theorem C15_rollback_exact (s : St) (si : BitVec 16) (ppi : BitVec 32) (len : Nat) (h : s.established = false) :
